@@ -9,4 +9,4 @@ for c in "$@"; do
   (cd /verif && VERIF_REPO="$W" ./check "$c" 2>&1 | grep -E "^VIOLATION|^KNOWN|OK tier|FAILED tier" | head -6)
 done
 git -C /repo worktree remove --force "$W"
-rm -rf /verif/.build/bin-* 2>/dev/null
+H=$(python3 -c "import hashlib,sys; print(hashlib.sha1(sys.argv[1].encode()).hexdigest()[:8])" "$W"); rm -rf "/verif/.build/bin-$H" 2>/dev/null
